@@ -71,6 +71,8 @@ def reference(B, kind, M, X):
                 m, v = _mean_var(B, xs)
             for i in range(n_ids):
                 y = M[i][o][t]
+                if isinstance(y, float) and y != y:
+                    continue        # missing value: contributes nothing
                 if kind == 'gaussian':
                     total = total + _normal(B, y, m, v)
                 elif kind == 'lognormal':
@@ -175,6 +177,72 @@ def case_filter(B, cfg):
                              g[(s * n_obs + o) * n_t + order[k]])
 
 
+NAN = float('nan')
+
+
+def _pattern(M, pattern):
+    """copy of M (n_ids x n_obs x n_t) with missing values:
+    'pad'     - an extra individual without any measurement
+    'ragged'  - additionally, individual 0 misses the last time point and
+                individual 1 the first (every cell keeps >= 1 value)
+    'sparse'  - only individual i is measured at time i mod n_t ... plus a
+                fully measured last individual"""
+    n_ids, n_obs, n_t = len(M), len(M[0]), len(M[0][0])
+    out = [[[M[i][o][t] for t in range(n_t)] for o in range(n_obs)]
+           for i in range(n_ids)]
+    if pattern in ('pad', 'ragged'):
+        out.append([[NAN] * n_t for _ in range(n_obs)])
+    if pattern == 'ragged' and n_ids >= 2:
+        for o in range(n_obs):
+            out[0][o][n_t - 1] = NAN
+            out[1][o][0] = NAN
+    if pattern == 'sparse':
+        for i in range(n_ids - 1):
+            for o in range(n_obs):
+                for t in range(n_t):
+                    if t != i % n_t:
+                        out[i][o][t] = NAN
+    return out
+
+
+def case_missing(B, cfg):
+    """missing values: the score is the sum over the non-missing
+    measurements; padding does not change it; sensitivities are its
+    derivative"""
+    kind = cfg['kind']
+    n_ids, n_obs, n_t, n_sim = (cfg['n_ids'], cfg['n_obs'], cfg['n_times'],
+                                cfg['n_sim'])
+    M = _vars(B, 'm', n_ids, n_obs, n_t)
+    X = _vars(B, 'x', n_sim, n_obs, n_t)
+    _assume(B, kind, M, X)
+    Mp = _pattern(M, cfg['pattern'])
+    Xa = ps.arr(B, X)
+    f = make(kind, ps.arr(B, Mp))
+    v = f.compute_log_likelihood(Xa)
+    B.eq('score with missing values = sum over the non-missing '
+         'measurements', v, reference(B, kind, Mp, X))
+    if cfg['pattern'] == 'pad':
+        B.eq('padding with a missing individual leaves the score unchanged',
+             v, make(kind, ps.arr(B, M)).compute_log_likelihood(Xa))
+    flat = [X[s][o][t] for s in range(n_sim) for o in range(n_obs)
+            for t in range(n_t)]
+
+    def val(xs):
+        arr = [[[xs[(s * n_obs + o) * n_t + t] for t in range(n_t)]
+                for o in range(n_obs)] for s in range(n_sim)]
+        return make(kind, ps.arr(B, Mp)).compute_log_likelihood(
+            ps.arr(B, arr))
+    _, g = B.grad(val, flat)
+    score, sens = f.compute_sensitivities(Xa)
+    B.eq('S1 score = score (missing values)', score, v)
+    for s in range(n_sim):
+        for o in range(n_obs):
+            for t in range(n_t):
+                B.eq('sens[%d,%d,%d] = d score / d simulated (missing '
+                     'values)' % (s, o, t), sens[s][o][t],
+                     g[(s * n_obs + o) * n_t + t])
+
+
 def case_composed(B, cfg):
     k1, k2 = cfg['kinds']
     n_ids, n_obs, n_sim = cfg['n_ids'], cfg['n_obs'], cfg['n_sim']
@@ -253,6 +321,19 @@ def jobs(tier):
                 out.append(('filter', 'case_filter', dict(
                     kind=kind, n_ids=n_ids, n_obs=n_obs, n_times=n_t,
                     n_sim=n_sim), {'max_paths': 64}))
+    for kind in FILTERS:
+        n_sim = 4 if kind == 'mixture' else 2
+        pats = [('pad', 1, 1, 1), ('pad', 2, 1, 2), ('ragged', 2, 1, 2),
+                ('sparse', 3, 1, 2)]
+        if not q:
+            pats += [('ragged', 2, 2, 2), ('sparse', 3, 2, 2),
+                     ('pad', 2, 2, 1)]
+        for (pat, n_ids, n_obs, n_t) in pats:
+            if kind.endswith('kde') and n_ids * n_t > 4:
+                continue
+            out.append(('missing', 'case_missing', dict(
+                kind=kind, pattern=pat, n_ids=n_ids, n_obs=n_obs,
+                n_times=n_t, n_sim=n_sim), {'max_paths': 128}))
     pairs = [('gaussian', 'lognormal'), ('lognormal', 'gaussian'),
              ('gaussian', 'gaussian')]
     if not q:
